@@ -389,3 +389,14 @@ def run(ctx):
     ctx.check(len(rets) >= 2 and not bad_rets and not bad_defs, "C20.e", "TimeTickHandler.format_time_ticks:one-label-per-tick",
               f"{len(rets)} return(s), each an unfiltered comprehension over a per-tick list {sorted(per_tick)}",
               f"labels are not an element-wise image of the ticks: {(bad_rets + bad_defs)[:2]}", ft.where)
+
+    # the level grammar of the tick handler (unit strings -> (unit, amount)) is a table: confirmed entry by entry
+    pl = TT.methods.get("parse_level")
+    ctx.saw(pl)
+    mt = [n.value for n in ast.walk(pl.node) if isinstance(n, ast.Assign) and U(n.targets[0]) == "matchers" and isinstance(n.value, ast.Tuple)]
+    table = [(const_value(e.elts[0]), U(e.elts[1].body)) for e in mt[0].elts if isinstance(e, ast.Tuple) and len(e.elts) == 2 and isinstance(e.elts[1], ast.Lambda)] if mt else []
+    want_tbl = [("^(center|edge)s?$", "(m[1], 0)"), ("^([0-9\\.]+)?d(ay(s)?)?$", "('day', float(m[1] or 1))"),
+                ("^([0-9]+)?h(our(s)?)?$", "('hour', int(m[1] or 1))"), ("^([0-9]+)?m(in(s)?)?$", "('min', int(m[1] or 1))"),
+                ("^([0-9\\.]+)?(\\.[0-9]+)?s(ec(s)?)?$", "('sec', float(m[1] or 1) + float('0.' + (m[2] or '0')))")]
+    ctx.check(table == want_tbl, "C20.e", "TimeTickHandler.parse_level:grammar", "5 unit patterns with their amount expressions as confirmed",
+              f"the level grammar changed: {[t for t in table if t not in want_tbl][:2]} (e.g. '.5s' must mean half a second)", pl.where)
